@@ -216,10 +216,12 @@ def check_bb(
     if bb == cfg.entry_bb:
         assert len(bb.predecessors) == 0
         for x, use in bb.vars.used.items():
-            if (
-                x not in cfg.ass_before[bb]
-                and x not in globals
-                and x not in generic_params
+            if x in cfg.ass_before[bb]:
+                continue
+            # Following Python, locals are exactly those variables that are defined
+            # somewhere in the function body, they never refer to a global
+            if x in cfg.assigned_somewhere or (
+                x not in globals and x not in generic_params
             ):
                 raise GuppyError(VarNotDefinedError(use, x))
 
